@@ -547,10 +547,83 @@ def rule_show_config_region(prog, fixture=False):
     return r
 
 
+# ---------------------------------------------------------------- R-C18-8
+def _is_errno(e):
+    e = strip_all(e)
+    return e is not None and e.get("k") == "UnaryOperator" and e.get("op") == "*" and \
+        any(x.get("k") == "CallExpr" and notpl(x.get("q") or "") == "__errno_location" for x in walk(e))
+
+
+def rule_errno_decisions(prog, fixture=False):
+    r = RuleResult("R-C18-8", "where errno *decides* something (`if (errno)`, directly or through a local copy) it was "
+                   "cleared earlier in the same function on every path - otherwise a value left behind by unrelated code "
+                   "(a diagnostic that could not be written under --verbose, say) turns an ordinary short read into an "
+                   "I/O error and the command fails", floor=0 if fixture else 3)
+    lambdas_of = {}
+    for f in prog.functions.values():
+        if f.parent_key:
+            for p_ in prog.by_key.get(f.parent_key, []):
+                lambdas_of.setdefault(f.uid, []).append(p_)
+
+    def reset_before(fn):
+        def transfer(x):
+            if x.get("k") == "BinaryOperator" and x.get("op") == "=" and _is_errno(x["c"][0]) and folded(x["c"][1]) == 0:
+                return True
+            return None
+        return flow.must_hold_at(fn, transfer)
+    ats = {}
+    for fn in prog.functions.values():
+        if fn.body is None:
+            continue
+        copies = set()
+        for n in fn.walk():
+            if n.get("k") == "VarDecl" and n.get("c") and _is_errno(n["c"][0]):
+                copies.add(n["d"])
+        sites = []
+        for n in fn.walk():
+            if n.get("k") in ("IfStmt", "ConditionalOperator", "WhileStmt"):
+                cond = n["c"][n["parts"]["cond"]] if n.get("parts") and "cond" in n["parts"] else n["c"][0]
+                for x in walk(cond):
+                    if _is_errno(x) and x.get("k") == "UnaryOperator":
+                        sites.append((n, x, "errno"))
+                    elif x.get("k") == "DeclRefExpr" and x.get("d") in copies:
+                        src = [v for v in fn.walk() if v.get("k") == "VarDecl" and v.get("d") == x["d"]]
+                        sites.append((n, src[0] if src else x, x.get("n")))
+        k = 0
+        for stmt, probe, what in sites:
+            k += 1
+            key = "%s::%s::decision on %s#%d" % (fn.relfile(), fn.qn, what, k)
+            at = ats.setdefault(fn.uid, reset_before(fn))
+            ok = at(probe)
+            if not ok and fn.uid in lambdas_of:
+                # a lambda: every call of it must follow a reset in the enclosing function
+                oks = []
+                for p_ in lambdas_of[fn.uid]:
+                    pat = ats.setdefault(p_.uid, reset_before(p_))
+                    for c in p_.walk():
+                        if is_call(c) and fn in prog.call_targets(p_, c):
+                            oks.append(bool(pat(c)))
+                ok = bool(oks) and all(oks)
+            if ok is None:
+                continue
+            r.add(key, fn.loc(stmt), bool(ok), "errno was cleared earlier on every path" if ok else
+                  "errno decides here but is not cleared in this function beforehand: whatever an earlier, unrelated call "
+                  "left in it is taken for the outcome of this operation")
+    return r
+
+
 def run(ctx):
     prog = ctx.prog("dfs", "N")
     return [rule_layering(prog), rule_verbose_regions(prog), rule_option_handlers(prog),
-            rule_presentation_inputs(prog), rule_environment_cannot_fail(prog), rule_show_config_region(prog)]
+            rule_presentation_inputs(prog), rule_environment_cannot_fail(prog), rule_show_config_region(prog),
+            rule_errno_decisions(prog), _shared_static_state(prog)]
+
+
+def _shared_static_state(prog):
+    from . import c10
+    r = c10.rule_no_carried_static_state(prog)
+    r.rule = "R-C18-9"       # no function keeps state from one call to the next: what a diagnostic call left behind
+    return r                 # cannot surface in a later call that writes standard output
 
 
 SELFTESTS = [
